@@ -244,7 +244,7 @@ func checkC03(c any) *ev.Verdict {
 			return v.Failf("partial", "error returned together with postings or metadata")
 		}
 		// the public wrapper hides a partial result: look at the internal entry point too
-		ri := hx.RunInternal(gen.PrintCanonical(ec.Script), ec.Vars, doubles.New(doubles.Superset, hx.Content(ec)), ec.Flags)
+		ri := hx.RunInternalEC(ec, gen.PrintCanonical(ec.Script), doubles.New(doubles.Superset, hx.Content(ec)))
 		if ri.NonEmptyWithError {
 			return v.Failf("partial", "interpreter.RunProgram returned a result together with the error %s", ri.ErrMsg)
 		}
